@@ -188,6 +188,10 @@ template <class A, class T, class G> void run_outstream(vf::Ctx& c, int archId, 
 	std::string full; { std::ostringstream os; Res r0 = call([&] { SaveObject<A>(v, os, opt); }); if (r0.k != Res::Ok) c.discard("reference save failed"); full = os.str(); }
 	const bool mask = c.src.coin(); const bool thr = c.src.coin();
 	size_t from, to; gen_span(c.src, full.size(), from, to); c.nontrivial = to > from && to > 1; c.label(mask ? "exception-mask" : "no-mask"); c.label(thr ? "streambuf-throws" : "streambuf-returns-eof"); if (to - from == full.size()) c.label("all-positions");
+	if (c.src.chance(1, 6)) {   // a stream that is already in a failed state when the save starts (file that could not be opened, earlier failed seek): nothing can be written
+		std::ostringstream os; os.setstate(c.src.coin() ? std::ios::failbit : std::ios::badbit); c.label("stream-failed-before-the-save"); Res r = call([&] { SaveObject<A>(v, os, opt); });
+		if (r.k == Res::NonStd) c.fail("a failure reaches the caller as something that is not a std::exception", "pre-failed stream"); if (r.k == Res::Ok) c.fail("a write error of the output stream does not reach the caller as an exception: the save returns normally", vf::cat(arch_name(archId), " stream in a failed state before the save"));
+	}
 	size_t threw = 0;
 	for (size_t k = from; k < to; k++) {
 		c.describe(vf::cat(arch_name(archId), " output stream fails after ", k, " of ", full.size(), " bytes mask=", mask, " throws=", thr));
